@@ -38,3 +38,12 @@ Definition agree11t6 (c : list N * option (Z * Z)) : bool :=
   | Some (a, p), Some (b, q) => (a =? b) && (p =? q)
   | _, _ => false
   end.
+
+(* string renderings, IPv4: (a, p, [str(ip); as_cidr_addr; as_cidr_net; str(netmask); str(hostmask); str(broadcast)]) against the
+   renderer of Model/IPText.v, for which Proofs/IPTextProofs.v proves that every rendering re-parses to (a, p) *)
+Definition model11r (c : Z * Z * list (list N)) : list (list N) :=
+  let '(a, p, _) := c in
+  let o := {| addr := a; plen := p |} in
+  [render_quad a; render4 F_cidr a p; render4 F_cidr (netw 32 o) p; render_quad (netmask 32 o); render_quad (hostmask 32 o);
+   render_quad (lastaddr 32 o)].
+Definition agree11r (c : Z * Z * list (list N)) : bool := list_eqb str_eqb (snd c) (model11r c).
